@@ -688,8 +688,15 @@ class Layer(object):
                 idx = sublayer.index('#')
                 sublayer_class = sublayer[:idx]
 
+                # keep instance numbering ahead of the restored instances, so that
+                # the next instantiate() does not reuse (and replace) one of them
+                sublayer_clazz = self.LAYERS[sublayer_class]
+                number = sublayer[idx+1:]
+                if number.isdigit() and getattr(sublayer_clazz, 'INSTCOUNT', -1) < int(number):
+                    setattr(sublayer_clazz, 'INSTCOUNT', int(number))
+
                 # instantiate and initialize
-                sublayer_obj = self.create_layer(self.LAYERS[sublayer_class], sublayer)
+                sublayer_obj = self.create_layer(sublayer_clazz, sublayer)
                 sublayer_obj.load(state['sublayers'][sublayer])
 
     @classmethod
